@@ -45,6 +45,8 @@ def check(chk, fx):
     from . import c04
     c04.ws(chk, fx)          # "after the same whitespace skipping"
     caprules.cap_t(chk, fx)
+    from .. import width
+    width.check(chk, fx, classes=("LEN",), minimum=8)
     idxrule.report(chk, fx, lambda q: q.startswith(P + "get_current_term") or q.startswith(P + "shift") or
                    q.startswith(P + "context_parse") or q.startswith(P + "syntax_error") or
                    q.startswith(P + "trace_recognized_term") or q.startswith(P + "consume_term"),
